@@ -28,6 +28,7 @@ func checkC05(c *Check) {
 	c.blockingInventory("C05.2 interruptible-waits")
 	c.dialSingleResult("C05.2 dial-result")
 	c.checkSpawnJoin("C05.2 spawn-join")
+	c.readerHandoffRule("C05.2 reader-join")
 	c.disableEnablePairing("C05.1 fsm-table-consistent")
 	_ = ssa.BuilderMode(0)
 }
